@@ -6,7 +6,7 @@
    dispatch, so arity/type errors are still modelled for them. *)
 From Coq Require Import ZArith List Bool.
 From Coq Require Import Floats.SpecFloat.
-From Rscel Require Import Base.Prims Base.F64 Base.Text Base.FloatText Model.Strings Model.Time Model.Value Model.Ops Model.Dispatch.
+From Rscel Require Import Base.Prims Base.F64 Base.Text Base.FloatText Base.FloatPrint Model.Strings Model.Time Model.TimeText Model.Value Model.Ops Model.Dispatch.
 Import ListNotations.
 Import Coq.Strings.String.StringSyntax.
 Open Scope Z_scope.
@@ -100,16 +100,28 @@ Definition uint_arms : list arm := [
                          | _ => bad end)
 ].
 
+(** the seconds of a duration as the f64 that string() prints: nanoseconds / 1e9 while the
+    nanosecond count fits an i64, else milliseconds / 1e3 *)
+Definition dur_seconds_f64 (ns : Z) : f64 :=
+  if in_i64 ns then f64_div (f64_of_Z ns) (f64_of_Z 1000000000)
+  else f64_div (f64_of_Z (Z.quot ns 1000000)) (f64_of_Z 1000).
+
 Definition string_arms : list arm := [
   arm1 PInt (fun a => match a with VInt z => ok (VString (dec_of_Z z)) | _ => bad end);
   arm1 PUInt (fun a => match a with VUInt z => ok (VString (dec_of_Z z)) | _ => bad end);
-  arm1 PDouble (fun _ => unmod);           (* f64 Display *)
+  arm1 PDouble (fun a => match a with
+                         | VFloat f => match print_f64 f with Some t => ok (VString t) | None => unmod end
+                         | _ => bad end);
   arm1 PString (fun a => ok a);
   arm1 PBytes (fun a => match a with
                         | VBytes b => if utf8_valid b then ok (VString b) else verr EValue
                         | _ => bad end);
-  arm1 PTime (fun _ => unmod);             (* to_rfc3339 *)
-  arm1 PDur (fun _ => unmod);              (* f64 Display *)
+  arm1 PTime (fun a => match a with VTime ns => ok (VString (rfc3339_of_ns ns)) | _ => bad end);
+  arm1 PDur (fun a => match a with
+                      | VDur ns => match print_f64 (dur_seconds_f64 ns) with
+                                   | Some t => ok (VString (t ++ [115]))
+                                   | None => unmod end
+                      | _ => bad end);
   arm1 PAny (fun _ => verr EValue)
 ].
 
